@@ -16,7 +16,7 @@ from gverif.treemodel import COMPS, MSpec, MT, Tree, mname, render_layout
 
 PID = 'C01'
 LEVEL = 'model_checking'
-RULE = ('families F1-F7 of DESIGN.md §C01: every tree shape x layout x mutation set within the '
+RULE = ('families F1-F9 of DESIGN.md §C01/§7: every tree shape x layout x mutation set within the '
         'tier bound is materialised on tmpfs and verified by the real library call and the real '
         'CLI; a case is a (family, parameters, mutation list) descriptor; non-trivial = at least '
         'one mutation / duplicate / IGNORE / sub-path / last_mtime is active and the reference '
@@ -26,6 +26,10 @@ ASSUMPTIONS = [
     'trusted base: CPython os/hashlib/gzip/bz2/lzma and gverif/refmanifest.py',
     'small scope: <=4 data files, <=3 directories, nesting <=2, <=1 (quick) / <=2 (thorough) mutations',
     'tmpfs only; no symlink loops or device boundaries here (C16); no I/O faults (C06)',
+    'F6 (last_mtime): file mtime in {T, T+.25, T+.75} x last_mtime in {None, T-1, T, T+.25, T+.5, T+.75, T+1} x change kind x '
+    'content x hash set x 1-2 files: the shortcut may skip content only when st_mtime <= last_mtime exactly',
+    'F9 (CLI with several paths): k = 2..3 (thorough 4) paths, sub-directories of ONE tree or SEPARATE trees, every '
+    'subset of them broken (altered / deleted / stray file), with and without --keep-going: exit 0 iff every path matches',
 ]
 
 TOP = 'Manifest'
@@ -90,8 +94,51 @@ def judge(v, o, iface):
     return viol('wrong_failure')
 
 
+def check_multi(case, scratch, stats=None):
+    """F9: one CLI invocation over SEVERAL paths (sub-directories of one tree and/or separate trees): it succeeds
+    iff every path verifies."""
+    roots = []
+    for i, tj in enumerate(case['trees']):
+        r = fresh_root(scratch, f't{i}')
+        Tree.from_json(tj).write(r)
+        roots.append(r)
+    kinds = []
+    args = []
+    for ti, path in case['multi']:
+        v = refverify.expected_verify(roots[ti], TOP, path, None)
+        kinds.append(v.kind)
+        args.append(os.path.join(roots[ti], path) if path else roots[ti])
+    want_ok = all(k == 'match' for k in kinds)
+    definite = all(k in ('match', 'mismatch') for k in kinds)
+    o = gem.cli(['verify'] + list(case['flags']) + args)
+    ok = o.get('exit') == 0
+    fail = isinstance(o.get('exit'), int) and o.get('exit') != 0
+    if stats is not None:
+        stats.evaluations += 1
+        stats.transitions += 1
+        stats.compared += 1 if definite else 0
+        stats.outcomes[f'multi:{"match" if want_ok else "mismatch"}/cli/{gem.brief(o)}'] += 1
+    out = []
+    if definite:
+        what = None
+        if want_ok and not ok:
+            what = 'multi_path_rejected_matching_trees'
+        elif not want_ok and ok:
+            what = 'multi_path_accepted_non_matching_tree'
+        elif not want_ok and not fail:
+            what = 'multi_path_wrong_failure'
+        if what:
+            sig = {'check': what, 'iface': 'cli', 'flags': list(case['flags']), 'got': gem.brief(o)}
+            out.append({'sig': sig, 'case': case,
+                        'message': f'{what}: gemato verify {" ".join(case["flags"])} over paths with reference verdicts '
+                                   f'{kinds} gave {gem.brief(o)} exit={o.get("exit")!r} ({case["desc"]})'})
+    return out, kinds
+
+
 def check_case(case, scratch, stats=None):
     """Materialise the concrete case, run lib + cli, judge.  -> violations."""
+    if 'multi' in case:
+        return check_multi(case, scratch, stats)
     root = fresh_root(scratch)
     Tree.from_json(case['tree']).write(root)
     path = case.get('path', '')
@@ -657,9 +704,14 @@ def f6_shards(tier, seed):
 
 def f6_run(spec, tier, seed, scratch, stats):
     m = MT
-    for lm, change, content, hs, nfiles in itertools.product(
-            (None, m - 1, m, m + 1), ('none', 'same', 'other', 'delete'), (b'', b'abc'),
+    # sub-second values as well: the shortcut applies iff st_mtime <= last_mtime EXACTLY (a file changed later within
+    # the same whole second as last_mtime is newer); .25/.5/.75 are exact in binary floating point
+    lms = (None, m - 1, m, m + 0.25, m + 0.5, m + 0.75, m + 1)
+    for mf, lm, change, content, hs, nfiles in itertools.product(
+            (m, m + 0.25, m + 0.75), lms, ('none', 'same', 'other', 'delete'), (b'', b'abc'),
             (('SHA1',), ()), (1, 2)):
+        if mf != m and (nfiles == 2 or not hs) and tier == 'quick':
+            continue
         files = {'f': content}
         if nfiles == 2:
             files['g'] = b'second'
@@ -677,11 +729,13 @@ def f6_run(spec, tier, seed, scratch, stats):
         for second_newer in ((False, True) if nfiles == 2 else (False,)):
             sc = Scenario(files, [MSpec(TOP, items)])
             p2 = list(post)
+            if mf != m and change != 'delete':
+                p2.append(lambda t, mf=mf: t.mtimes.__setitem__('f', mf))
             if second_newer:
                 p2.append(lambda t: (t.files.__setitem__('g', b'SECOND'), t.mtimes.__setitem__('g', m + 5)))
             sc.post = p2
             tree = sc.build()
-            desc = (spec, lm, change, content, hs, nfiles, second_newer)
+            desc = (spec, mf - m, lm, change, content, hs, nfiles, second_newer)
             case = {'tree': tree.to_json(), 'path': '', 'last_mtime': lm, 'desc': repr(desc)}
             vs, v = check_case(case, scratch, stats)
             stats.case(desc, nontrivial=v.kind != 'dontcare' and (lm is not None))
@@ -762,10 +816,63 @@ def f8_run(spec, tier, seed, scratch, stats):
             stats.violation(x['sig'], x['case'], x['message'])
 
 
+# ---- F9: the CLI given several paths (sub-directories of one tree, separate trees, both)
+
+def f9_shards(tier, seed):
+    return [('F9', k) for k in ((2, 3) if tier == 'quick' else (2, 3, 4))]
+
+
+def f9_run(spec, tier, seed, scratch, stats):
+    _f, k = spec
+    hs = ('SHA1',)
+    dirs = ['a', 'b', 'c', 'd'][:k]
+
+    def one_tree(bad):
+        files = {f'{d}/f': d.encode() * 3 for d in dirs}
+        files['top'] = b'top'
+        sc = Scenario(files, [MSpec(TOP, [('F', 'DATA', p, hs) for p in sorted(files)])])
+        post = []
+        for d, how in bad.items():
+            if how == 'alter':
+                post.append(lambda t, d=d: t.files.__setitem__(f'{d}/f', b'XXX'))
+            elif how == 'delete':
+                post.append(lambda t, d=d: (t.files.pop(f'{d}/f'), t.dirs.add(d)))
+            elif how == 'stray':
+                post.append(lambda t, d=d: t.files.__setitem__(f'{d}/stray', b's'))
+        sc.post = post
+        return sc.build()
+
+    hows = ('alter', 'delete', 'stray')
+    for layout in ('one_tree', 'separate_trees'):
+        for mask in itertools.product((0, 1), repeat=k):
+            for hi, how in enumerate(hows):
+                if not any(mask) and hi:
+                    continue
+                if tier == 'quick' and k == 3 and how != 'alter':
+                    continue
+                bad = {d: how for d, b in zip(dirs, mask) if b}
+                if layout == 'one_tree':
+                    trees = [one_tree(bad).to_json()]
+                    multi = [(0, d) for d in dirs]
+                else:
+                    trees = [one_tree({d: h for d, h in bad.items() if d == dd}).to_json() for dd in dirs]
+                    multi = [(i, '') for i in range(k)]
+                for flags in ((), ('-k',)):
+                    desc = (spec, layout, mask, how, flags)
+                    case = {'trees': trees, 'multi': multi, 'flags': list(flags), 'desc': repr(desc)}
+                    vs, kinds = check_case(case, scratch, stats)
+                    stats.case(desc, nontrivial=any(mask))
+                    stats.counters['multi_path_cli_cases'] += 1
+                    if any(mask) and not mask[-1]:
+                        stats.counters['multi_path_bad_not_last'] += 1
+                    for x in vs:
+                        stats.violation(x['sig'], x['case'], x['message'])
+
+
 FAMILIES = {
     'F1': (f1_shards, f1_run), 'F2': (f2_shards, f2_run), 'F2sib': (None, f2_run),
     'F3': (f3_shards, f3_run), 'F3b': (f3b_shards, f3b_run), 'F4': (f4_shards, f4_run), 'F5': (f5_shards, f5_run),
-    'F6': (f6_shards, f6_run), 'F7': (f7_shards, f7_run), 'F8': (f8_shards, f8_run),
+    'F6': (f6_shards, f6_run), 'F7': (f7_shards, f7_run), 'F8': (f8_shards, f8_run), 'F9': (f9_shards, f9_run),
 }
 
 
